@@ -277,6 +277,22 @@ func init() {
 		in.call(fr, 0, args[1], nil)
 		return nil
 	}
+	// sync.Pool without pooling: Get returns New() (or nil), Put drops the object
+	externals["(*sync.Pool).Get"] = func(in *Interp, fr *frame, args []value) value {
+		p := args[0].(*value)
+		st := in.findType("sync", "Pool").Underlying().(*types.Struct)
+		for i := 0; i < st.NumFields(); i++ {
+			if st.Field(i).Name() == "New" {
+				fn := (*p).(structure)[i]
+				if isNilFunc(fn) {
+					return iface{}
+				}
+				return in.call(fr, 0, fn, nil)
+			}
+		}
+		return iface{}
+	}
+	externals["(*sync.Pool).Put"] = nop
 	externals["runtime.KeepAlive"] = nop
 	externals["runtime.SetFinalizer"] = nop
 }
@@ -300,6 +316,9 @@ func stubParseFloat(in *Interp, fr *frame, args []value) value {
 		return iface{t: types.NewPointer(et), v: &cell}
 	}
 	if s, ok := args[0].(string); ok {
+		if t, ok := in.path.nums[s]; ok {
+			return tuple{t, nilError()} // a number token written by verifNum: its value is the solver variable
+		}
 		f, err := strconv.ParseFloat(s, 64)
 		if err != nil {
 			if FloatReal && (math.IsInf(f, 0) || math.IsNaN(f)) {
@@ -454,6 +473,32 @@ func init() {
 			return tuple{in.tb.Bool(m), nilError()}
 		}
 		return tuple{in.tb.UF(fmt.Sprintf("re_%x_%d", []byte(pat), len(bs)), SBool, bs...), nilError()}
+	}
+}
+
+func init() {
+	// (*regexp.Regexp).ReplaceAllString on concrete operands: the real function (native); the
+	// pattern is read from the receiver's expr field
+	externals["(*regexp.Regexp).ReplaceAllString"] = func(in *Interp, fr *frame, args []value) value {
+		p, ok := args[0].(*value)
+		if !ok || p == nil {
+			panic(targetPanic{msg: "runtime error: invalid memory address or nil pointer dereference (nil *regexp.Regexp)"})
+		}
+		st, ok := (*p).(structure)
+		if !ok {
+			panic(unsupported{"regexp.Regexp value is opaque"})
+		}
+		expr, ok1 := st[0].(string)
+		src, ok2 := args[1].(string)
+		repl, ok3 := args[2].(string)
+		if !ok1 || !ok2 || !ok3 {
+			panic(unsupported{"(*regexp.Regexp).ReplaceAllString with symbolic operands"})
+		}
+		re, err := regexp.Compile(expr)
+		if err != nil {
+			panic(unsupported{"regexp does not compile natively: " + expr})
+		}
+		return re.ReplaceAllString(src, repl)
 	}
 }
 
